@@ -139,6 +139,13 @@ def run_case(env, rec, case):
     os.makedirs(outside)
     with open(os.path.join(outside, "secret.js"), "w") as f:
         f.write("x")
+    # a sibling directory whose NAME merely starts with the component directory's name, holding the same files
+    sibling = roots[0] + "_private"
+    for rel in tree:
+        p = os.path.join(sibling, rel)
+        os.makedirs(os.path.dirname(p), exist_ok=True)
+        with open(p, "w") as f:
+            f.write("private")
     placed = {}  # rel -> root index
     for i, rel in enumerate(tree):
         r = roots[i % len(roots)]
@@ -192,7 +199,11 @@ def run_case(env, rec, case):
                 if path not in placed:
                     rec.violation("listed-unknown-file", case, {"what": path})
             # traversal / absolute / prefix tricks
-            for probe in ("../outside/secret.js", "sub/../../outside/secret.js", os.path.join(outside, "secret.js"), "../rootmark_comp2/" + (tree[0] if tree else "a.js"), "..", "/etc/passwd", "./" + (tree[0] if tree else "a.js")):
+            probes = ["../outside/secret.js", "sub/../../outside/secret.js", os.path.join(outside, "secret.js"), "..", "/etc/passwd", "./" + (tree[0] if tree else "a.js")]
+            for rel in tree[:8]:
+                # every file also through its copy in the prefix-named sibling directory, and through the other root
+                probes += ["../rootmark_comp_private/" + rel, "sub/../../rootmark_comp_private/" + rel, os.path.join(sibling, rel), "../rootmark_comp2/" + rel, "../rootmark_comp/" + rel, "./" + rel, "nodir/../" + rel, rel.replace("/", "//", 1)]
+            for probe in probes:
                 try:
                     got = finder.find(probe)
                 except env.SFO:
@@ -204,11 +215,17 @@ def run_case(env, rec, case):
                 rec.observe("traversal-probes")
                 if got:
                     real = os.path.realpath(got)
-                    if not any(real.startswith(os.path.realpath(r) + os.sep) for r in roots):
+                    inside = [r for r in roots if real.startswith(os.path.realpath(r) + os.sep)]
+                    if not inside:
                         rec.violation("path-outside-component-dirs", case, {"what": f"find({probe!r}) -> {got!r}"})
-                    elif probe.startswith("../") or probe.startswith("/"):
-                        # resolves inside another root through a '..' hop: must have been refused by safe_join
-                        rec.violation("path-outside-component-dirs", case, {"what": f"find({probe!r}) -> {got!r} (escaped its root)"})
+                    else:
+                        # an alias of a file inside a component directory ('./x', 'a/../x', '../<root>/x'): allowed to
+                        # resolve, but it must not reveal a file that the configuration hides
+                        rel2 = os.path.relpath(real, os.path.realpath(inside[0])).replace(os.sep, "/")
+                        exp2, amb2 = reference(rel2, cfg)
+                        rec.count("alias_lookups_resolved_inside")
+                        if not amb2 and not exp2:
+                            rec.violation("hidden-file-exposed-through-alias-path", case, {"what": f"find({probe!r}) -> {got!r}; {rel2!r} is not exposed under this configuration"})
             if cfg["allowed"] is None and cfg["forbidden"] is None:
                 for path in listed:
                     if path.endswith((".py", ".pyc", ".html", ".django", ".dj", ".tpl")):
